@@ -653,14 +653,23 @@ Transparent step0.
 (* [leaf_le l l']: l' is the same node (label, u, df, independent) and knows every correlation l knows *)
 Definition leaf_le (l l' : leaf) : Prop :=
   l_label l' = l_label l /\ l_u l' = l_u l /\ l_df l' = l_df l /\ l_indep l' = l_indep l /\
-  forall c v r, l_corr l = Some c -> dget uid_eqb c v = Some r ->
-                exists c', l_corr l' = Some c' /\ dget uid_eqb c' v = Some r.
+  (forall c v r, l_corr l = Some c -> dget uid_eqb c v = Some r ->
+                 exists c', l_corr l' = Some c' /\ dget uid_eqb c' v = Some r) /\
+  (* the ensemble: the same set object, with at least the members it had *)
+  (forall g c, l_ens l = Some (g, c) -> exists c', l_ens l' = Some (g, c') /\ incl c c').
 Lemma leaf_le_refl : forall l, leaf_le l l.
-Proof. intros l. unfold leaf_le. repeat split; auto. intros c v r H1 H2. eauto. Qed.
+Proof.
+  intros l. unfold leaf_le. repeat split; auto.
+  - intros c v r H1 H2. eauto.
+  - intros g c H. exists c. split; [exact H | apply incl_refl].
+Qed.
 Lemma leaf_le_trans : forall a b c, leaf_le a b -> leaf_le b c -> leaf_le a c.
 Proof.
-  intros a b c (A1 & A2 & A3 & A4 & A5) (B1 & B2 & B3 & B4 & B5). unfold leaf_le.
-  repeat split; try congruence. intros x v r H1 H2. destruct (A5 _ _ _ H1 H2) as (c' & H3 & H4). eauto.
+  intros a b c (A1 & A2 & A3 & A4 & A5 & A6) (B1 & B2 & B3 & B4 & B5 & B6). unfold leaf_le.
+  repeat split; try congruence.
+  - intros x v r H1 H2. destruct (A5 _ _ _ H1 H2) as (c' & H3 & H4). eauto.
+  - intros g x H. destruct (A6 _ _ H) as (c1 & H1 & I1). destruct (B6 _ _ H1) as (c2 & H2 & I2).
+    exists c2. split; [exact H2 | eapply incl_tran; eauto].
 Qed.
 
 Definition keeps (s s' : session) : Prop :=
@@ -700,6 +709,55 @@ Proof.
   apply IH. destruct (dmem uid_eqb c k); [exact H | apply dget_app_keep; exact H].
 Qed.
 
+Lemma in_insert_uid : forall u x l, In x l -> In x (insert_uid u l).
+Proof.
+  intros u x l. induction l as [|h t IH]; simpl; [tauto|].
+  intros H. destruct (uid_eqb u h); [exact H|]. destruct (uid_ltb u h); [right; exact H|].
+  destruct H as [->|H]; [left; reflexivity | right; auto].
+Qed.
+Lemma in_insert_uid_self : forall u l, In u (insert_uid u l).
+Proof.
+  intros u l. induction l as [|h t IH]; simpl; [auto|].
+  destruct (uid_eqb u h) eqn:E; [apply uid_eqb_eq in E; subst; left; reflexivity|].
+  destruct (uid_ltb u h); [left; reflexivity | right; exact IH].
+Qed.
+Lemma in_insert_uid_inv : forall u x l, In x (insert_uid u l) -> x = u \/ In x l.
+Proof.
+  intros u x l. induction l as [|h t IH]; simpl; [intros [<-|[]]; auto|].
+  destruct (uid_eqb u h); [auto|]. destruct (uid_ltb u h); simpl; [intros [<-|H]; auto|].
+  intros [<-|H]; [auto|]. destruct (IH H); auto.
+Qed.
+(* the members after l.ensemble.update(e) are exactly the old ones and those of e *)
+Lemma ens_union_in : forall e c x, In x (ens_union c e) <-> In x c \/ In x e.
+Proof.
+  unfold ens_union. induction e as [|h t IH]; intros c x; simpl; [tauto|].
+  rewrite IH. split.
+  - intros [H|H]; [|auto]. destruct (in_insert_uid_inv _ _ _ H); [subst; auto | auto].
+  - intros [H|[<-|H]]; [left; apply in_insert_uid; exact H | left; apply in_insert_uid_self | auto].
+Qed.
+Lemma ens_union_incl : forall c e, incl c (ens_union c e).
+Proof. intros c e x H. apply ens_union_in. auto. Qed.
+
+Lemma lget_map_leaf : forall (f : leaf -> leaf) d u,
+  lget (map (fun p => (fst p, f (snd p))) d) u = option_map f (lget d u).
+Proof.
+  intros f d u. unfold lget. induction d as [|[k v] t IH]; simpl; [reflexivity|].
+  destruct (uid_eqb k u); [reflexivity | exact IH].
+Qed.
+Lemma ens_extend_le : forall g e l, leaf_le l (ens_extend g e l).
+Proof.
+  intros g e l. unfold ens_extend. destruct (l_ens l) as [[g' c]|] eqn:E; [|apply leaf_le_refl].
+  destruct (uid_eqb g' g); [|apply leaf_le_refl].
+  unfold leaf_le; simpl. repeat split; auto.
+  - intros; eauto.
+  - intros g0 c0 H. rewrite E in H. injection H as <- <-. eexists. split; [reflexivity | apply ens_union_incl].
+Qed.
+Lemma ens_update_keeps : forall s g e, keeps s (ens_update s g e).
+Proof.
+  intros s g e u l Hl. unfold ens_update; simpl. rewrite lget_map_leaf, Hl. simpl.
+  eexists. split; [reflexivity | apply ens_extend_le].
+Qed.
+
 Lemma thaw_leaves_keeps : forall ln s s' r, thaw_leaves s ln = (s', r) -> keeps s s'.
 Proof.
   induction ln as [|[u fl] t IH]; intros s s' r H; simpl in H.
@@ -707,17 +765,37 @@ Proof.
   - unfold new_leaf in H. unfold dmem in H. fold (lget (s_leaves s) u) in H.
     destruct (lget (s_leaves s) u) as [l0|] eqn:E0.
     + destruct (leaf_same _ _ _ _ l0); [|injection H as <- _; apply keeps_refl].
+      match type of H with thaw_leaves ?s3 _ = _ => set (S3 := s3) in * end.
       apply IH in H. eapply keeps_trans; [|exact H].
-      intros u' l Hl. simpl. rewrite lget_lset. destruct (uid_eqb u u') eqn:E.
-      * apply uid_eqb_eq in E. subst u'. rewrite E0 in Hl. injection Hl as <-.
-        eexists. split; [reflexivity|]. unfold leaf_le; simpl. repeat split; auto.
-        intros c v r0 Hc Hv. rewrite Hc. unfold thaw_corr. destruct (l_corr fl) as [c'|]; eauto.
-        eexists. split; [reflexivity|]. apply corr_merge_keeps. exact Hv.
-      * exists l. split; [exact Hl | apply leaf_le_refl].
-    + apply IH in H. eapply keeps_trans; [|exact H].
-      intros u' l Hl. simpl. rewrite !lget_lset. destruct (uid_eqb u u') eqn:E.
+      match eval unfold S3 in S3 with
+      | match _ with _ => _ end => idtac
+      | _ => idtac
+      end.
+      assert (K2 : keeps s (w_leaves s (lset (s_leaves s) u
+                 (mkLeaf (l_label l0) (l_u l0) (l_df l0) (l_indep l0)
+                    (match l_complex fl with Some c => Some c | None => l_complex l0 end)
+                    (thaw_corr (l_corr l0) (l_corr fl))
+                    (match l_ens fl, true, l_ens l0 with
+                     | Some _, true, Some _ => l_ens l0
+                     | Some (_, e), _, _ => Some (u, e)
+                     | None, _, _ => l_ens l0 end))))).
+      { intros u' l Hl. simpl. rewrite lget_lset. destruct (uid_eqb u u') eqn:E.
+        - apply uid_eqb_eq in E. subst u'. rewrite E0 in Hl. injection Hl as <-.
+          eexists. split; [reflexivity|]. unfold leaf_le; simpl. repeat split; auto.
+          + intros c v r0 Hc Hv. rewrite Hc. unfold thaw_corr. destruct (l_corr fl) as [c'|]; eauto.
+            eexists. split; [reflexivity|]. apply corr_merge_keeps. exact Hv.
+          + intros g c Hg. rewrite Hg. destruct (l_ens fl) as [[g1 e1]|]; (exists c; split; [reflexivity | apply incl_refl]).
+        - exists l. split; [exact Hl | apply leaf_le_refl]. }
+      eapply keeps_trans; [exact K2|]. unfold S3.
+      destruct (l_ens fl) as [[g1 e1]|]; [|apply keeps_refl].
+      destruct (l_ens l0) as [[g0 c0]|]; [apply ens_update_keeps | apply keeps_refl].
+    + match type of H with thaw_leaves ?s3 _ = _ => set (S3 := s3) in * end.
+      apply IH in H. eapply keeps_trans; [|exact H].
+      assert (E3 : forall u', uid_eqb u u' = false -> lget (s_leaves S3) u' = lget (s_leaves s) u').
+      { intros u' E. unfold S3. destruct (l_ens fl) as [[g1 e1]|]; simpl; rewrite !lget_lset, E; reflexivity. }
+      intros u' l Hl. destruct (uid_eqb u u') eqn:E.
       * apply uid_eqb_eq in E. subst u'. congruence.
-      * exists l. split; [exact Hl | apply leaf_le_refl].
+      * exists l. split; [rewrite (E3 _ E); exact Hl | apply leaf_le_refl].
 Qed.
 
 Lemma thaw_nodes_leaves : forall iu s s' r, thaw_nodes s iu = (s', r) -> s_leaves s' = s_leaves s.
@@ -734,7 +812,9 @@ Proof.
   intros s u c. unfold set_complex. destruct (lget (s_leaves s) u) as [l0|] eqn:E0; [|apply keeps_refl].
   intros u' l Hl. simpl. rewrite lget_lset. destruct (uid_eqb u u') eqn:E.
   - apply uid_eqb_eq in E. subst u'. rewrite E0 in Hl. injection Hl as <-.
-    eexists. split; [reflexivity|]. unfold leaf_le; simpl. repeat split; auto. intros; eauto.
+    eexists. split; [reflexivity|]. unfold leaf_le; simpl. repeat split; auto.
+    + intros; eauto.
+    + intros g c0 Hg. exists c0. split; [exact Hg | apply incl_refl].
   - exists l. split; [exact Hl | apply leaf_le_refl].
 Qed.
 
@@ -890,7 +970,9 @@ Proof.
   induction ln as [|[u fl] t IH]; intros s s' r H; simpl in H.
   - injection H as <- _. auto.
   - destruct (new_leaf s u _ _ _ _) as [[s1 l]|] eqn:E; [|injection H as <- _; auto].
-    apply new_leaf_counters in E. apply IH in H. simpl in H. intuition congruence.
+    apply new_leaf_counters in E.
+    destruct (l_ens fl) as [[g1 e1]|]; destruct (dmem uid_eqb (s_leaves s) u); destruct (l_ens l) as [[g0 c0]|];
+      apply IH in H; simpl in H; intuition congruence.
 Qed.
 
 Lemma thaw_nodes_counters : forall iu s s' r,
@@ -1059,41 +1141,9 @@ Lemma order_ab_ba :
 Proof. vm_compute. repeat split; reflexivity. Qed.
 
 (* ------------------------------------------------------------------ Part 6: ensembles *)
-(* _thaw ASSIGNS the archived ensemble onto the leaf new_leaf returned.  A live leaf therefore keeps
-   its ensemble exactly when the archived record agrees with it -- which holds for every document
-   written in the session as long as no member was appended after the dump (multiple_ureal ensembles
-   never change; line-fit ensembles grow after x_from_y / y_from_x: reported, not generated) *)
-Lemma thaw_leaves_ens : forall ln s s' r,
-  thaw_leaves s ln = (s', r) -> NoDup (map fst ln) ->
-  (forall u fl l, In (u, fl) ln -> lget (s_leaves s) u = Some l -> l_ens fl = None \/ l_ens fl = l_ens l) ->
-  forall u l, lget (s_leaves s) u = Some l -> exists l', lget (s_leaves s') u = Some l' /\ l_ens l' = l_ens l.
-Proof.
-  induction ln as [|[u0 fl0] t IH]; intros s s' r H ND Hag u l Hl; simpl in H.
-  - injection H as <- _. eauto.
-  - inversion ND as [|? ? Hnot ND']; subst.
-    unfold new_leaf in H. unfold dmem in H. fold (lget (s_leaves s) u0) in H.
-    destruct (lget (s_leaves s) u0) as [l0|] eqn:E0.
-    + destruct (leaf_same _ _ _ _ l0); [|injection H as <- _; eauto].
-      assert (Hens : match l_ens fl0 with Some e => Some e | None => l_ens l0 end = l_ens l0).
-      { destruct (Hag u0 fl0 l0 (or_introl eq_refl) E0) as [-> | ->]; [reflexivity|]. destruct (l_ens l0); reflexivity. }
-      match type of H with thaw_leaves ?s1 _ = _ => set (S1 := s1) in * end.
-      assert (Hag1 : forall u1 fl1 l1, In (u1, fl1) t -> lget (s_leaves S1) u1 = Some l1 -> l_ens fl1 = None \/ l_ens fl1 = l_ens l1).
-      { intros u1 fl1 l1 Hin Hg. unfold S1 in Hg. simpl in Hg. rewrite lget_lset in Hg. destruct (uid_eqb u0 u1) eqn:E.
-        - apply uid_eqb_eq in E. subst u1. exfalso. apply Hnot. apply (in_map fst) in Hin. exact Hin.
-        - eapply Hag; [right; exact Hin | exact Hg]. }
-      assert (Hl1 : exists lx, lget (s_leaves S1) u = Some lx /\ l_ens lx = l_ens l).
-      { unfold S1. simpl. rewrite lget_lset. destruct (uid_eqb u0 u) eqn:E.
-        - apply uid_eqb_eq in E. subst u. rewrite E0 in Hl. injection Hl as <-. eexists. split; [reflexivity|]. simpl. exact Hens.
-        - eauto. }
-      destruct Hl1 as (lx & G & Ex). destruct (IH S1 s' r H ND' Hag1 u lx G) as (l' & G' & E'). exists l'. split; congruence.
-    + match type of H with thaw_leaves ?s1 _ = _ => set (S1 := s1) in * end.
-      assert (Hne : uid_eqb u0 u = false).
-      { destruct (uid_eqb u0 u) eqn:E; [|reflexivity]. apply uid_eqb_eq in E. subst u. congruence. }
-      assert (Hag1 : forall u1 fl1 l1, In (u1, fl1) t -> lget (s_leaves S1) u1 = Some l1 -> l_ens fl1 = None \/ l_ens fl1 = l_ens l1).
-      { intros u1 fl1 l1 Hin Hg. unfold S1 in Hg. simpl in Hg. rewrite !lget_lset in Hg. destruct (uid_eqb u0 u1) eqn:E.
-        - apply uid_eqb_eq in E. subst u1. exfalso. apply Hnot. apply (in_map fst) in Hin. exact Hin.
-        - eapply Hag; [right; exact Hin | exact Hg]. }
-      assert (Hl1 : lget (s_leaves S1) u = Some l).
-      { unfold S1. simpl. rewrite !lget_lset. rewrite Hne. exact Hl. }
-      exact (IH S1 s' r H ND' Hag1 u l Hl1).
-Qed.
+(* since the repair (fix: _thaw extends a live node's ensemble in place) the ensemble is part of
+   [leaf_le]: thaw_keeps / step_load_keeps say that a live leaf keeps its set object with at least
+   the members it had.  When the archived records only name members the live sets already have
+   (every document written in the session: sets only grow), nothing changes at all: *)
+Lemma ens_union_same_members : forall c e, incl e c -> forall x, In x (ens_union c e) <-> In x c.
+Proof. intros c e H x. rewrite ens_union_in. split; [intros [A|A]; auto | auto]. Qed.
